@@ -128,6 +128,14 @@ PROPS = {
         "assumptions": ["inventory poll period is one hour so refreshes happen only where the harness triggers them"],
         "units": [{"pkg": "provider/cluster", "run": "^TestVerif_C12$", "checks": {Q: 300, T: 6000}, "shards": {Q: 2, T: 16}, "steps": 40, "timeout": {Q: 600, T: 3000}, "shrinktime": "30s"}],
     },
+    "C13": {
+        "level": "fault_enumeration", "floor": 0.4,
+        "technique": "property-based testing with a harness-owned schedule: every asynchronous step of the real order monitor is gated; generated sequences of completions, single failures, chain events, bid timeout and shutdown; call-log oracle at termination",
+        "level_text": "A real order monitor (newOrderInternal) runs over a real bus while the harness gates group fetch, existing-bid query, auditor lookup, Reserve, pricing, create-bid and close-bid broadcasts and Unreserve. Generated schedules complete steps (ok or failing), publish order-closed / lease-created events for this and other orders/providers/groups, shut the parent down or let a bid timeout fire, in particular while steps are in flight, and finally complete whatever is still in flight. Over the call log: at most one create-bid, never above the group's maximum price, only after a successful reservation; unless the lease was won every successful reservation is followed by an Unreserve and an existing bid by a close-bid; the monitor always terminates.",
+        "level_note": "Trusted: when two channels are ready at once the Go runtime's select picks - both outcomes are legal schedules and the oracle is schedule independent; bounded waits (20 s) only detect wedging.",
+        "assumptions": ["single failure injection per step; Unreserve/close-bid calls count as released/closed even if the call itself fails"],
+        "units": [{"pkg": "provider/bidengine", "run": "^TestVerif_C13$", "checks": {Q: 300, T: 5000}, "shards": {Q: 4, T: 16}, "race": {Q: False, T: True}, "timeout": {Q: 600, T: 3000}, "shrinktime": "30s"}],
+    },
     "C15": {
         "level": "exploration",
         "technique": "property-based testing: rapid state machine vs per-subscriber FIFO model + generated concurrent runs with schedule-independent order oracle",
